@@ -341,6 +341,7 @@ func init() {
 			{Name: "CHUNKS-FRESH", What: "the list a Chunks method sorts and merges in place is built in that call, never an alias of the index's storage (shared with C17)", Floor: 2, Run: ruleChunksFresh},
 			{Name: "REG2BINS-RANGE", What: "csi.reg2bins and internal.OverlappingBinsFor show beg ≥ 0, end beyond beg and end ≤ a power of two before they shift them into uint32 bin numbers that an unsigned counter walks: otherwise csi Chunks(rid, 0, 0), Chunks(rid, 0, MaxInt64) and bam Chunks(ref, -100000010, -100000009) never return (shared with C11; added for defects of the unchanged tree, repaired a0a1615, a8ada74)", Floor: 6, Run: ruleReg2binsRange},
 			{Name: "IDX-SIGN", What: "in the exported index methods that can answer no (an ok or error result) an index or slice bound computed from an integer parameter is shown in range: Chunks with a region that starts before the reference, ReferenceStats for a reference the index does not have (shared with C11; defects of the unchanged tree, repaired cf18b3c, d6ea7d4)", Floor: 2, Run: ruleIdxSign},
+			{Name: "STRATEGY-BIND", What: "index.Adjacent – what every Chunks answer goes through – is the function adjacent that MERGE-STEP examines (shared with C17)", Floor: 3, Run: ruleStrategyBind},
 			{Name: "LAST-BASE", What: "internal.(*Index).Add and csi.(*Index).Add validate the record's last base, End()-1, with the predicate on 0-based positions, not the exclusive End(): a record on the last base the index can hold is accepted (shared with C16; added for a defect of the unchanged tree)", Floor: 2, Run: ruleLastBase},
 			{Name: "STATS-BLIND", What: "no Chunks method (bam, internal, csi, tabix; through their callees) reads the reference statistics: a query is answered from bins and intervals alone (added after seventh-round seed C04-h: an early-out on Stats.Mapped == 0 loses references that hold only placed unmapped reads)", Floor: 4, Run: ruleStatsBlind},
 			{Name: "ARG-AGREE", What: "Add and Chunks hand the same geometry to the bin function / bin enumeration; BAI and tabix file under BinFor of the record's own interval", Floor: 3, Run: ruleArgAgree},
